@@ -23,7 +23,8 @@ def understoodB (t : Cls) : Bool :=
   (t.setters.all fun s => s.guard != .unknown && s.writes.all fun w => w.2 != .unknown) &&
   (t.getters.all fun g => g.field != "?") &&
   (t.geometryReads.all fun f => f != "?") && (t.rebuildPositive.all fun f => f != "?") &&
-  t.ctor.all ctorOpKnown &&
+  t.ctor.all ctorOpKnown && t.binPsd != .unknown && t.evaluate != .unknown &&
+  (t.isSpectrum == (t.binPsd != .none)) && (t.isSpectrum == (t.evaluate != .none)) &&
   (t.isSpectrum || t.geometryReads.length == 2)
 
 theorem six_classes : classes.map (·.name) =
